@@ -36,6 +36,10 @@ Definition keyed_agg (o : op1) : option (list Z -> Z) :=
   | _ => None
   end.
 
+(** the join a replica performs on the two partitions it received (hash or sort-merge local
+    algorithm: same result) *)
+Definition local_join (v : jvar) (l r : list P) : list P := ev_join v l r.
+
 (** distributed steps of the operators, [state] = the loop state visible to the body *)
 Inductive dstep : Z -> op1 -> dist -> dist -> Prop :=
 | ds_local : forall state o d, stateless o = true -> dstep state o d (map (ev1 state o) d)
@@ -74,6 +78,15 @@ Inductive dstep : Z -> op1 -> dist -> dist -> Prop :=
 | ds_nestedO : forall state n limit body d d0 st, exchange d d0 ->
     dloopO state n limit body d0 (Z.to_nat (Z.max n 1)) 0 0 st ->
     dstep state (ONestedO n limit body) d [[(0, st)]]
+  (* join with a constant side input, hash shipping (as [de_join_hash]): the current stream
+     is exchanged to [dl'], the side input is ANY distribution [dr'] of [side] over the same
+     replicas (equal keys of both sides on the same replica), joined locally; inside a loop
+     body the cached side input is replayed every round, so every round may see another
+     distribution of it *)
+| ds_join_side : forall state v lo side d dl' dr',
+    exchange d dl' -> Permutation (flat dr') side -> length dl' = length dr' ->
+    key_partitioned (map (fun lr => fst lr ++ snd lr) (combine dl' dr')) ->
+    dstep state (OJoinSide v lo side) d (map (fun lr => local_join v (fst lr) (snd lr)) (combine dl' dr'))
 
 with dsteps : Z -> list op1 -> dist -> dist -> Prop :=
 | dss_nil : forall state d, dsteps state [] d d
@@ -120,8 +133,6 @@ Inductive diter : Z -> Z -> list op1 -> dist -> nat -> Z -> Z -> Z * dist -> Pro
     dsteps st body d d' -> exchange d' d'' ->
     ((st + zsum (map snd (flat d'')) <? limit) && (k + 1 <? n)) = false ->
     diter n limit body d (S fuel) k st (st + zsum (map snd (flat d'')), d'').
-
-Definition local_join (v : jvar) (l r : list P) : list P := ev_join v l r.
 
 Inductive dexec : pipe -> dist -> Prop :=
 | de_src : forall par xs d, Permutation (flat d) xs -> dexec (PSrc par xs) d
